@@ -9,8 +9,20 @@ fn usage() -> !
 
 fn main()
 {
-    std::panic::set_hook(Box::new(|_| {}));
+    if std::env::var("VERIF_PANIC_VERBOSE").is_err() { std::panic::set_hook(Box::new(|_| {})); }
     let args: Vec<String> = std::env::args().collect();
+    if args.len() >= 3 && args[1] == "exec"
+    {
+        // developer aid: run one program of a named configuration and print trace + verdicts
+        let Some(cfg) = cobweb_mc::checks::config_by_name(&args[2]) else { eprintln!("unknown config"); std::process::exit(2); };
+        let forced: Vec<u32> = args.get(3).map(|s| s.split(',').filter(|x| !x.is_empty()).map(|x| x.parse().unwrap()).collect()).unwrap_or_default();
+        let ex = cobweb_mc::universe::execute(&cfg, forced);
+        for (i, e) in ex.trace.iter().enumerate() { println!("{i}: {:?}", e); }
+        let out = cobweb_mc::monitor::run_monitor(&cfg, &ex.trace);
+        for v in out.violations.iter() { println!("{} {} {} :: {}", v.property, v.rule, v.signature, v.detail); }
+        println!("record={:?}", ex.record);
+        return;
+    }
     if args.len() < 3 || args[1] != "check" { usage(); }
     let id = args[2].clone();
     let mut tier = match std::env::var("VERIF_TIER").as_deref() { Ok("thorough") => Tier::Thorough, _ => Tier::Quick };
